@@ -14,10 +14,15 @@ def Mgr.init (w : World) (pts qts : Int) (chans : List (Nat × Int)) : Mgr :=
 /-- `loadChannels`: the stored channels whose access hash is known. -/
 def liveOf (w : World) (chans : List (Nat × Int)) : List (Nat × Int) := chans.filter fun c => !w.hashUnknown c.1
 
-theorem start_eq (O : Orders) (w : World) (pts qts : Int) (chans : List (Nat × Int)) :
-    Mgr.start O w pts qts chans =
-      Mgr.settle O fuel0 ((((Mgr.init w pts qts (liveOf w chans)).getDifference O fuel0).chans.map (·.id)).foldl
-        (fun (m : Mgr) c => m.chGetDifference O c fuel0) ((Mgr.init w pts qts (liveOf w chans)).getDifference O fuel0)) := rfl
+/-- The manager after `loadState` / `loadChannels`. -/
+def Mgr.init' (O : Orders) (w : World) (pts qts : Int) (chans : List (Nat × Int)) (noState : Bool) : Mgr :=
+  if noState then (Mgr.init w pts qts chans).firstState O else Mgr.init w pts qts chans
+
+theorem start_eq (O : Orders) (w : World) (pts qts : Int) (chans : List (Nat × Int)) (ns : Bool) :
+    Mgr.start O w pts qts chans ns =
+      Mgr.settle O fuel0 ((((Mgr.init' O w pts qts (liveOf w chans) ns).getDifference O fuel0).chans.map (·.id)).foldl
+        (fun (m : Mgr) c => m.chGetDifference O c fuel0) ((Mgr.init' O w pts qts (liveOf w chans) ns).getDifference O fuel0)) := by
+  cases ns <;> rfl
 
 theorem find_filter_id (P : Nat → Bool) (fc : List (Nat × Int)) (c : Nat) :
     (fc.filter fun x => P x.1).find? (·.1 == c) = if P c then fc.find? (·.1 == c) else none := by
@@ -197,13 +202,19 @@ met during the run (with their declared first-contact positions) and the list of
 the manager model after `start` and all actions satisfies the invariant. -/
 theorem mgr_run_inv (O : Orders) (hO : GoodOrders O) (w : World) (fp fq : Int) (fc cr : List (Nat × Int))
     (hpe : w.persisted = fc) (hcr : w.cr = cr)
-    (hS : Scn w.log (seqKeys (fc ++ cr)) (initOf w.p0 w.q0 w.c0)) (acts : List Action) :
+    (hS : Scn w.log (seqKeys (fc ++ cr)) (initOf w.p0 w.q0 w.c0)) (acts : List Action) (ns : Bool := false) :
     MInv O w.log (seqKeys (fc ++ cr)) (initOf w.p0 w.q0 w.c0) (initOf fp fq (fc ++ cr))
-      ((Mgr.start O w fp fq fc).runActions O acts) := by
+      ((Mgr.start O w fp fq fc ns).runActions O acts) := by
   apply minv_runActions hO hS
   rw [start_eq]
   apply minv_settle hO hS
-  have h1 := minv_getDifference hO hS fuel0 _ (minv_init O w fp fq fc cr (liveOf w fc) (liveOf_find w fc) hpe hcr)
+  have h0 : MInv O w.log (seqKeys (fc ++ cr)) (initOf w.p0 w.q0 w.c0) (initOf fp fq (fc ++ cr))
+      (Mgr.init' O w fp fq (liveOf w fc) ns) := by
+    unfold Mgr.init'
+    split
+    · exact minv_firstState hS (minv_init O w fp fq fc cr (liveOf w fc) (liveOf_find w fc) hpe hcr)
+    · exact minv_init O w fp fq fc cr (liveOf w fc) (liveOf_find w fc) hpe hcr
+  have h1 := minv_getDifference hO hS fuel0 _ h0
   exact foldl_inv _ _ _ (fun _ => True) (fun b c hb _ => minv_chGetDifference hO hS c fuel0 b hb) _ h1
     (fun _ _ => trivial)
 
@@ -214,14 +225,14 @@ channel that has not been met yet, or has become inaccessible, has no box). -/
 theorem mgr_projects (O : Orders) (hO : GoodOrders O) (w : World) (fp fq : Int) (fc cr : List (Nat × Int))
     (hpe : w.persisted = fc) (hcr : w.cr = cr)
     (hS : Scn w.log (seqKeys (fc ++ cr)) (initOf w.p0 w.q0 w.c0)) (acts : List Action) (k : Nat)
-    (hk : k ∈ seqKeys (fc ++ cr)) :
-    let m := (Mgr.start O w fp fq fc).runActions O acts
+    (hk : k ∈ seqKeys (fc ++ cr)) (ns : Bool := false) :
+    let m := (Mgr.start O w fp fq fc ns).runActions O acts
     let c := applyCfgOf O (mkOf w.log) k
     let s0 : Box := { state := initOf fp fq (fc ++ cr) k }
     wfRun c (seqLog w.log k) s0 (opsOf m.ops k) = true ∧
     projSeq w.log k m.trace = (srun c s0 (opsOf m.ops k)).2 ∧
     (m.getBox k = some (srun c s0 (opsOf m.ops k)).1 ∨ m.getBox k = none) := by
-  have h := (mgr_run_inv O hO w fp fq fc cr hpe hcr hS acts).coh
+  have h := (mgr_run_inv O hO w fp fq fc cr hpe hcr hS acts ns).coh
   exact ⟨h.wf k hk, h.tr k hk, h.box k hk⟩
 
 theorem scn_of_ok (log : List Entry) (keys : List Nat) (org : Nat → Int) (h : scnOK log keys org = true) :
